@@ -30,6 +30,14 @@ type rejectSpec struct {
 }
 
 func reasonOf(a Atom, be *BigEval) (kind, text string) {
+	kind, text = reasonOfRaw(a, be)
+	if kind != "call" && kind != "err" {
+		text = canonReason(text)
+	}
+	return kind, text
+}
+
+func reasonOfRaw(a Atom, be *BigEval) (kind, text string) {
 	a = normAtom(a)
 	if bo, ok := a.V.(*ssa.BinOp); ok && (isNilConst(bo.Y) || isNilConst(bo.X)) {
 		x := bo.X
@@ -104,6 +112,81 @@ func rejectingReturns(fn *ssa.Function, sp rejectSpec) []*ssa.Return {
 	}
 	return out
 }
+
+// canonReason makes a reason independent of how unexported helpers are named, shaped (method or function) and
+// called: the result of an unexported module function is `call:<pkg>.?` whatever its name and arguments. (The
+// reason then says "index found by a helper is negative", not which helper.)
+func canonReason(d string) string {
+	var sb strings.Builder
+	for i := 0; i < len(d); {
+		if !strings.HasPrefix(d[i:], "call:") {
+			sb.WriteByte(d[i])
+			i++
+			continue
+		}
+		j := i + len("call:")
+		// package
+		k := j
+		for k < len(d) && (d[k] == '_' || d[k] >= 'a' && d[k] <= 'z' || d[k] >= 'A' && d[k] <= 'Z' || d[k] >= '0' && d[k] <= '9') {
+			k++
+		}
+		pkg := d[j:k]
+		if k >= len(d) || d[k] != '.' || pkg == "" || pkg == "invoke" || pkg == "builtin" {
+			sb.WriteString("call:")
+			i = j
+			continue
+		}
+		k++
+		if k < len(d) && d[k] == '(' { // receiver
+			for k < len(d) && d[k] != ')' {
+				k++
+			}
+			k++
+			if k >= len(d) || d[k] != '.' {
+				sb.WriteString("call:")
+				i = j
+				continue
+			}
+			k++
+		}
+		n0 := k
+		for k < len(d) && (d[k] == '_' || d[k] >= 'a' && d[k] <= 'z' || d[k] >= 'A' && d[k] <= 'Z' || d[k] >= '0' && d[k] <= '9') {
+			k++
+		}
+		name := d[n0:k]
+		if name == "" || !(name[0] >= 'a' && name[0] <= 'z') || k >= len(d) || d[k] != '(' || !modulePkgShort[pkg] {
+			sb.WriteString("call:")
+			i = j
+			continue
+		}
+		// skip the balanced argument list and a result selector
+		depth := 0
+		for k < len(d) {
+			if d[k] == '(' {
+				depth++
+			} else if d[k] == ')' {
+				depth--
+				if depth == 0 {
+					k++
+					break
+				}
+			}
+			k++
+		}
+		if k < len(d) && d[k] == '#' {
+			k++
+			for k < len(d) && d[k] >= '0' && d[k] <= '9' {
+				k++
+			}
+		}
+		sb.WriteString("call:" + pkg + ".?")
+		i = k
+	}
+	return sb.String()
+}
+
+// modulePkgShort: short names of the module's packages (as they appear in descriptors).
+var modulePkgShort = map[string]bool{"gabi": true, "gabikeys": true, "revocation": true, "rangeproof": true, "keyproof": true, "zkproof": true, "common": true, "signed": true, "safeprime": true, "big": true, "pool": true, "cbor": true}
 
 type rejReason struct {
 	kind, text, shown, pos, fn string
